@@ -45,7 +45,7 @@ func genCase(t *rapid.T) Case {
 	nvals := rapid.IntRange(2, 6).Draw(t, "nvals")
 	switch c.Kind {
 	case "schema":
-		o := gen.SchemaOpts{MaxDepth: 3, Formats: reg.Names}
+		o := gen.SchemaOpts{MaxDepth: 3, Formats: reg.Names, Defaults: rapid.Bool().Draw(t, "defaults")}
 		if ev.Thorough() {
 			o.MaxDepth = 4
 		}
